@@ -98,7 +98,9 @@ def case_strategy(draw, tier="quick"):
             events.append({"ev": "sync", "how": how})
             if how in ("end_indep", "reopen"):
                 indep = False
-    return {"k": k, "fmt": fmt, "nvars": nvars, "fixed_first": fixed_first, "events": events}
+    # intra-node write aggregation (hint nc_num_aggrs_per_node): 0 = off, else the number of aggregators on the node
+    aggr = draw(st.sampled_from([0, 0, 0, 1, 1, 2]))
+    return {"k": k, "fmt": fmt, "nvars": nvars, "fixed_first": fixed_first, "events": events, "aggr": min(aggr, k)}
 
 
 def vals_for(v, rec, step):
@@ -117,7 +119,11 @@ def build(case):
     k = case["k"]
     p = Prog(k=k)
     mode = {1: 0, 2: 0x200, 5: 0x20}[case["fmt"]]
-    p.op("create", step=True, f="f0", path=hx("t.nc"), mode=mode)
+    ikw = {}
+    if case.get("aggr"):
+        p.s.op("info", i="i1", **{"h__nc_num_aggrs_per_node": hx(str(case["aggr"]))})
+        ikw = {"info": "i1"}
+    p.op("create", step=True, f="f0", path=hx("t.nc"), mode=mode, **ikw)
     p.op("def_dim", step=True, f="f0", name=hx("t"), len=0)
     p.op("def_dim", step=True, f="f0", name=hx("x"), len=X)
     nv = case["nvars"]
@@ -133,7 +139,7 @@ def build(case):
         vid[i] = nextid
         nextid += 1
     p.op("enddef", step=True, f="f0")
-    labels = set(["k%d" % k, "fmt%d" % case["fmt"], "nvars%d" % nv])
+    labels = set(["k%d" % k, "fmt%d" % case["fmt"], "nvars%d" % nv, "aggregators_per_node_%d" % case.get("aggr", 0)])
     info = {"nontrivial": False}
     # ---- model
     numrecs = 0                      # synchronised value
@@ -335,7 +341,7 @@ def build(case):
                 if any(pend[r] for r in range(k)):
                     continue
                 p.op("close", step=True, f="f0")
-                p.op("open", step=True, f="f0", path=hx("t.nc"), mode=1)
+                p.op("open", step=True, f="f0", path=hx("t.nc"), mode=1, **ikw)
                 indep = False
             numrecs = max([numrecs] + view)
             view = [numrecs] * k
